@@ -1,6 +1,6 @@
 (* Property C01 — results do not depend on the order of rows in the input data. *)
 From Coq Require Import ZArith Bool String List Permutation.
-From GettsimModel Require Import Num Val Column Aggregation Engine Perm.
+From GettsimModel Require Import Num Val Ast Eval PolicyEnv Column Aggregation Engine Dag Perm Table TablePerm.
 Import ListNotations.
 
 (* the generic engine lemma: if the inputs of two runs are related and every node operation
@@ -37,3 +37,28 @@ Theorem C01_float_sum_comm_assoc :
   (forall a b, xq_add a b = xq_add b a) /\ (forall a b c, xq_add (xq_add a b) c = xq_add a (xq_add b c)).
 Proof. split; [exact xq_add_comm | exact xq_add_assoc]. Qed.
 Print Assumptions C01_float_sum_comm_assoc.
+
+(* END TO END ON THE MODEL: the concrete engine (Table.sem: rules through numpy.vectorize with the
+   declared dtype and statutory rounding, unit conversions, group reductions, joins, sums by person
+   pointer) commutes with EVERY permutation of the rows: if the run on a table succeeds, the run on
+   the row-permuted table succeeds and every computed column is the permuted column.  The id
+   builders renumber groups in row order (only the partition is order free: C12), so the theorem is
+   about graphs whose id columns are supplied; its side conditions are decidable and are checked
+   on every regenerated graph. *)
+Theorem C01_engine_commutes_with_row_permutations : forall ft P rounding nrows p,
+  perm_of p nrows -> forall S e1 e2 t1,
+  forallb (perm_ready_b ft) S = true -> forallb (fun n => negb (String.eqb (d_name n) "p_id")) S = true ->
+  pid_inv e1 -> tab_rel nrows p e1 e2 ->
+  run column (to_sys column (sem ft P rounding nrows) S) e1 = Ok t1 ->
+  exists t2, run column (to_sys column (sem ft P rounding nrows) S) e2 = Ok t2 /\ tab_rel nrows p t1 t2.
+Proof. intros ft P rounding nrows p Hp. exact (run_perm_b ft P rounding nrows p Hp). Qed.
+Print Assumptions C01_engine_commutes_with_row_permutations.
+
+(* sums by person pointer commute with row permutations when the p_ids are unique *)
+Theorem C01_pointer_sums_permute : forall {A} (add : A -> A -> A) zero,
+  (forall a b, add a b = add b a) -> (forall a b c, add (add a b) c = add a (add b c)) ->
+  forall dl p col ptr pids out, NoDup pids -> length col = length pids -> length ptr = length pids -> perm_of p (length pids) ->
+  sum_by_p_id_list add zero col ptr pids = Ok out ->
+  sum_by_p_id_list add zero (pl dl p col) (pl 0%Z p ptr) (pl 0%Z p pids) = Ok (pl dl p out).
+Proof. intros A add zero Hc Ha. exact (SbpPerm.sum_by_p_id_list_perm add zero Hc Ha). Qed.
+Print Assumptions C01_pointer_sums_permute.
